@@ -144,3 +144,12 @@ Theorem C10_code_double : forall v size, v < 2^64 ->
   gcbor_encode_double (Z.of_N v) (Z.of_N size) = zres (encode_double v size).
 Proof. exact bridge_encode_double. Qed.
 Print Assumptions C10_code_half.
+
+(* "keeps no state between calls": no variable with static storage duration in the files of the streaming
+   decoder, the loaders, the encoders, the UTF-8 counter and the size guards is mutable or ever assigned
+   (inventory regenerated from the AST of this run; theories/Bridge_inventory.v) *)
+From CB Require Import Bridge_inventory.
+From CBGen Require Import Gen_inventory.
+Theorem C10_no_static_state : forallb stateless_ok gen_globals = true.
+Proof. exact bridge_stateless_files. Qed.
+Print Assumptions C10_no_static_state.
